@@ -4,6 +4,7 @@ model answers through the oracle, the theorem covers every oracle) and the gener
 import json
 import _checker_common as K
 import _zoo
+import _call_common as C
 
 RULE = ('exhaustive product of the annotation zoo (every public name of typing and collections.abc, bare and subscripted with 1-3 arguments, '
         'PEP 585 aliases of all standard containers, user Generic / Protocol / TypedDict / Enum classes, TypeVars, ParamSpec, special forms, strings '
@@ -34,6 +35,10 @@ def cases(rng, tier):
             out.append({'m': 'checker', 'c': {'env': K.env_json(), 'ann': ["special", i], 'val': ["inst", K.IDX[K.U]]},
                         'x': {'zoo': [i, j], 'labels': [la, lv]}})
     out += K.gen_checker_cases(rng, 6000 if tier == 'quick' else 100000)
+    # wrapper level: generated programs, keyword calls that Python accepts for the undecorated twin
+    n = 900 if tier == 'quick' else 8000
+    out += C.build_cases(rng, n, calls_per=3, style='kw', tag='c08a')
+    out += C.build_cases(rng, n // 3, calls_per=2, profile='incomplete', style='kw', tag='c08b')
     return out
 
 
@@ -45,6 +50,8 @@ def run_impl(cases):
     anns, vals = zoo()
     out = []
     for c in cases:
+        if c['m'] == 'calllayer':
+            out.extend(C.run_impl_calls([c])); continue
         z = c['x'].get('zoo')
         if z is not None:
             if z[0] >= len(anns) or z[1] >= len(vals):
@@ -58,7 +65,24 @@ def run_impl(cases):
     return out
 
 
+def judge_call(case, impl, model):
+    corr, why = C.correspondence(case, impl, model)
+    s = model['spec']
+    out = C.norm_out(impl['out'])
+    pfail = None
+    claimed = s['keywordCall'] and C.twin_accepts(impl)
+    if claimed and (out.startswith('ESC') or out.startswith('BIND') or out == 'RET:other'):
+        pfail = f'{impl["out"]} reached the caller of a keyword call that Python accepts for the undecorated function - {C.describe_case(case)}'
+    finding = None
+    if pfail and corr and ('untruthful' in model['regions'] or 'clazzFails' in model['regions']):
+        finding = 'bodyMentionsStaticmethodEscapes'
+    return {'corr': corr, 'pfail': pfail, 'finding': finding, 'nontrivial': bool(claimed),
+            'tag': f"call/{case['x']['kind']}/{case['x']['flavour']}/{out}", 'why': why}
+
+
 def judge(case, impl, model):
+    if case['m'] == 'calllayer':
+        return judge_call(case, impl, model)
     io = impl['out']
     if io.startswith('unbuildable'):
         return {'corr': True, 'pfail': None, 'nontrivial': False, 'tag': 'unbuildable'}
